@@ -339,7 +339,15 @@ def measure_rule(ctx):
     a = f.node.args
     defaults = dict(zip([x.arg for x in a.args][-len(a.defaults):], a.defaults))
     dflt = defaults.get("absoluteValues")
-    has_abs = any(isinstance(n, ast.If) and "absoluteValues" in norm_text(n.test) and "np.abs(" in norm_text(ast.Module(body=n.body, type_ignores=[])) for n in ast.walk(f.node))
+    from ..flow import must_pass
+
+    def takes_abs(st):
+        return isinstance(st, ast.Assign) and isinstance(st.value, ast.Call) and (dotted(st.value.func) or "") in ("np.abs", "np.absolute", "np.fabs", "abs")
+
+    # |.| on every completing path on which absoluteValues is true: the flag alone may guard it (any further
+    # condition - dimension, element type - leaves some elements with a signed measure)
+    has_abs = must_pass(f.node.body, takes_abs, lambda t: isinstance(t, ast.Name) and t.id == "absoluteValues",
+                        ignore_return=lambda st: st.value is None or (isinstance(st.value, ast.Constant) and st.value.value is None))
     if isinstance(dflt, ast.Constant) and dflt.value is True and has_abs:
         r.ok("Get_jacobian_e_pg(absoluteValues=True) applies np.abs to det F")
     else:
@@ -370,3 +378,43 @@ def run(ctx):
     from .. import indexspace
 
     indexspace.rule(ctx, "R8.6")
+    candidate_order_rule(ctx)
+
+
+def candidate_order_rule(ctx):
+    """R8.7: point location visits the candidate elements in ascending order: _Get_Mapping writes the per-point reference
+    coordinates at every visit (last visit wins) while its per-element outputs are indexed by element number, and the
+    consumers pick the highest-numbered containing element - the two agree only for an ascending visit order."""
+    from ..flow import Locals
+
+    repo = ctx.repo
+    r = ctx.rule("R8.7", "candidate elements of the point location have sorted provenance (np.unique / np.sort) - shared points must get reference coordinates and nodal values from the same element", min_instances=1)
+    f = repo.method(GE, "_Get_nearby_elements")
+    r.instance(fn=f.qualname)
+    ge = repo.cls(GE)
+
+    def sorted_returns(fn, depth=2):
+        L = Locals(fn.node)
+        rets = [n for n in ast.walk(fn.node) if isinstance(n, ast.Return) and n.value is not None]
+        if not rets:
+            return False
+        for rt in rets:
+            e = L.expand(rt.value)
+            while isinstance(e, ast.Call) and (dotted(e.func) or "") in ("np.asarray", "np.array") and e.args:
+                e = e.args[0]
+            if isinstance(e, ast.Call) and (dotted(e.func) or "") in ("np.unique", "np.sort", "sorted", "np.arange", "np.flatnonzero"):
+                continue
+            if isinstance(e, ast.Subscript) and isinstance(e.value, ast.Call) and (dotted(e.value.func) or "") in ("np.where", "np.nonzero"):
+                continue
+            if depth > 0 and isinstance(e, ast.Call) and isinstance(e.func, ast.Attribute) and isinstance(e.func.value, ast.Name) and e.func.value.id == "self":
+                g = repo.lookup_method(ge, e.func.attr)
+                if g is not None and sorted_returns(g, depth - 1):
+                    continue
+            return False
+        return True
+
+    ok = sorted_returns(f)
+    if ok:
+        r.ok("_Get_nearby_elements returns np.unique(...) (ascending)")
+    else:
+        r.fail(f.qualname, "unsorted-candidates", f.file, f.lineno, "_Get_nearby_elements", "the candidate elements are returned in hash / discovery order: a point on a shared edge, face or node gets the reference coordinates of the last element visited but the nodal values of the highest-numbered one")
